@@ -23,7 +23,7 @@ class JsonRecordPacker:
             raise Exception("Expected Record Descriptor")
 
         # Descriptor already known
-        if desc.identifier in self.descriptors:
+        if self.descriptors.get(desc.identifier) == desc:
             return
 
         # versioned record descriptor
@@ -38,7 +38,7 @@ class JsonRecordPacker:
 
     def pack_obj(self, obj):
         if isinstance(obj, Record):
-            if obj._desc.identifier not in self.descriptors:
+            if self.descriptors.get(obj._desc.identifier) != obj._desc:
                 self.register(obj._desc, True)
             serial = obj._asdict()
 
